@@ -18,7 +18,7 @@ use std::marker::PhantomData;
 pub const DENOM: &str = "usei";
 pub const E18: u128 = 1_000_000_000_000_000_000;
 
-pub struct World { pub supply_b: u128, pub supply_s: u128, pub delegations: Vec<(String, u128)>, pub balance: u128 }
+pub struct World { pub supply_b: u128, pub supply_s: u128, pub delegations: Vec<(String, u128)>, pub balance: u128, pub unregistered: Option<usize> }
 impl Querier for World {
     fn raw_query(&self, bin: &[u8]) -> QuerierResult {
         let req: QueryRequest<Empty> = match from_json(bin) { Ok(r) => r, Err(e) => return SystemResult::Err(SystemError::InvalidRequest { error: e.to_string(), request: bin.into() }) };
@@ -36,7 +36,8 @@ impl Querier for World {
                     let s = if contract_addr == "bsei_token" { self.supply_b } else { self.supply_s };
                     SystemResult::Ok(ContractResult::Ok(to_json_binary(&TokenInfoResponse { name: "t".into(), symbol: "T".into(), decimals: 6, total_supply: Uint128::new(s) }).unwrap()))
                 } else if contract_addr == "registry" {
-                    let vs: Vec<ValidatorResponse> = self.delegations.iter().map(|d| ValidatorResponse { address: d.0.clone(), total_delegated: Uint128::new(d.1) }).collect();
+                    // the registry may no longer list a validator the hub still has stake on (removed while a redelegation was in flight)
+                    let vs: Vec<ValidatorResponse> = self.delegations.iter().enumerate().filter(|(k, _)| Some(*k) != self.unregistered).map(|(_, d)| ValidatorResponse { address: d.0.clone(), total_delegated: Uint128::new(d.1) }).collect();
                     SystemResult::Ok(ContractResult::Ok(to_json_binary(&vs).unwrap()))
                 } else { SystemResult::Err(SystemError::NoSuchContract { addr: contract_addr }) }
             }
@@ -53,7 +54,7 @@ pub struct Snapshot { pub st: State, pub cb: CurrentBatch }
 
 pub fn setup(input: &Value) -> OwnedDeps<MockStorage, MockApi, World, Empty> {
     let dels: Vec<(String, u128)> = input["delegations"].as_array().unwrap().iter().enumerate().map(|(i, d)| (format!("validator{}", i), u(d))).collect();
-    let w = World { supply_b: u(&input["supply_b"]), supply_s: u(&input["supply_s"]), delegations: dels, balance: u(&input["balance"]) };
+    let w = World { supply_b: u(&input["supply_b"]), supply_s: u(&input["supply_s"]), delegations: dels, balance: u(&input["balance"]), unregistered: input["unregistered"].as_u64().map(|x| x as usize) };
     let mut deps = OwnedDeps { storage: MockStorage::default(), api: MockApi::default(), querier: w, custom_query_type: PhantomData };
     let api = MockApi::default();
     let c = |s: &str| api.addr_canonicalize(s).unwrap();
@@ -111,7 +112,8 @@ impl Driver for HubOp {
         let thr = match rng.next() % 3 { 0 => E18, 1 => E18 - rng.below(E18 / 10), _ => rng.below(E18 + 1) };
         json!({"op": op, "amount": amount.to_string(), "supply_b": supply_b.to_string(), "supply_s": supply_s.to_string(), "req_b": qb.to_string(), "req_s": qs.to_string(),
                "backing_b": bb.to_string(), "backing_s": bs.to_string(), "delegations": ds, "balance": "0", "prev_balance": "0", "fee": fee.to_string(), "threshold": thr.to_string(),
-               "epoch_period": if rng.next() % 2 == 0 { "30" } else { "100000" }, "now": "5000"})
+               "epoch_period": if rng.next() % 2 == 0 { "30" } else { "100000" }, "now": "5000",
+               "unregistered": if op.starts_with("update_global") && n > 1 && rng.next() % 3 == 0 { json!(rng.next() % n) } else { Value::Null }})
     }
     fn run(&self, input: &Value) -> Outcome {
         let mut deps = setup(input);
